@@ -149,11 +149,15 @@ func (d *Driver) Open() error {
 }
 
 func (d *Driver) OpenWith(c StoreCfg) error {
+	return d.OpenWithCtx(context.Background(), c)
+}
+
+func (d *Driver) OpenWithCtx(ctx context.Context, c StoreCfg) error {
 	pt := store.MultihashPrimary
 	if c.Primary == "CID" {
 		pt = store.CIDPrimary
 	}
-	st, err := store.OpenStore(context.Background(), pt, dataPath, indexPath, c.Immutable, c.Options()...)
+	st, err := store.OpenStore(ctx, pt, dataPath, indexPath, c.Immutable, c.Options()...)
 	if err != nil {
 		return err
 	}
@@ -379,8 +383,9 @@ func (d *Driver) mhPrimary() *mhprimary.MultihashPrimary {
 // countdownCtx expires after the n-th Err() call (deterministic "time limit").
 type countdownCtx struct {
 	context.Context
-	left int
-	hit  bool
+	left   int
+	hit    bool
+	cancel bool // report context.Canceled instead of DeadlineExceeded
 }
 
 func newCountdown(n int) *countdownCtx {
@@ -390,6 +395,9 @@ func newCountdown(n int) *countdownCtx {
 func (c *countdownCtx) Err() error {
 	if c.left <= 0 {
 		c.hit = true
+		if c.cancel {
+			return context.Canceled
+		}
 		return context.DeadlineExceeded
 	}
 	c.left--
